@@ -1,5 +1,561 @@
+//! C15 — mass matrices, DAEs and Jacobian sources/storages are interchangeable.
+
+use super::common::*;
 use crate::ctx::{Ctx, Meta};
+use crate::probe::*;
+use crate::problems::*;
 use crate::report::Report;
+use crate::rng::Rng;
+use crate::util::{bits_eq, bits_eq2, par_for};
+use ivp::methods::RADAU;
+use ivp::prelude::*;
+use serde_json::{json, Value};
+
+/// banded linear system with forcing: y' = B y + s(t), B with lower/upper bandwidth (ml, mu), diagonally
+/// dominant (stable), optional cubic damping on the diagonal (keeps the Jacobian banded)
+struct BandedSys {
+    n: usize,
+    ml: usize,
+    mu: usize,
+    b: Vec<Vec<f64>>,
+    cubic: f64,
+    om: Vec<f64>,
+}
+impl BandedSys {
+    fn random(rng: &mut Rng, n: usize, ml: usize, mu: usize, strong_offdiag: bool) -> Self {
+        let mut b = vec![vec![0.0; n]; n];
+        for i in 0..n {
+            let mut s = 0.0;
+            for j in 0..n {
+                let k = i as isize - j as isize;
+                if i != j && k <= ml as isize && -k <= mu as isize {
+                    b[i][j] = if strong_offdiag { rng.sign() * rng.range(5.0, 60.0) } else { rng.range(-1.0, 1.0) };
+                    s += b[i][j].abs();
+                }
+            }
+            b[i][i] = if strong_offdiag { -rng.range(0.5, 2.0) } else { -(s + rng.range(0.2, 2.0)) };
+        }
+        if strong_offdiag {
+            // keep it stable: feed-forward structure only (strictly lower or strictly upper part)
+            for i in 0..n {
+                for j in 0..n {
+                    if (ml >= mu && j > i) || (ml < mu && j < i) {
+                        b[i][j] = 0.0;
+                    }
+                }
+            }
+        }
+        BandedSys { n, ml, mu, b, cubic: if rng.bool() { rng.range(0.0, 0.5) } else { 0.0 }, om: (0..n).map(|_| rng.range(0.3, 2.0)).collect() }
+    }
+}
+impl Problem for BandedSys {
+    fn dim(&self) -> usize {
+        self.n
+    }
+    fn f(&self, t: f64, y: &[f64], dy: &mut [f64]) {
+        for i in 0..self.n {
+            let mut s = (self.om[i] * t).sin() - self.cubic * y[i] * y[i] * y[i];
+            for j in 0..self.n {
+                if self.b[i][j] != 0.0 {
+                    s += self.b[i][j] * y[j];
+                }
+            }
+            dy[i] = s;
+        }
+    }
+    fn jac_dense(&self, _t: f64, y: &[f64]) -> Option<Vec<Vec<f64>>> {
+        let mut j = self.b.clone();
+        for i in 0..self.n {
+            j[i][i] -= 3.0 * self.cubic * y[i] * y[i];
+        }
+        Some(j)
+    }
+    fn describe(&self) -> Value {
+        json!({"family": "banded_system", "n": self.n, "ml": self.ml, "mu": self.mu, "B": self.b, "cubic": self.cubic})
+    }
+}
+
+/// semi-explicit index-1 DAE with known solution: y1' = g(t,y1) + (y2 - c(y1)), 0 = y2 - c(y1), c(u) = u^2 + 1
+struct SemiExplicit {
+    base: Composite,
+    coupling: f64,
+}
+impl Problem for SemiExplicit {
+    fn dim(&self) -> usize {
+        2
+    }
+    fn f(&self, t: f64, y: &[f64], dy: &mut [f64]) {
+        let mut g = [0.0];
+        self.base.f(t, &y[..1], &mut g);
+        dy[0] = g[0] + self.coupling * (y[1] - (y[0] * y[0] + 1.0));
+        dy[1] = y[1] - (y[0] * y[0] + 1.0);
+    }
+    fn exact(&self, t: f64) -> Option<Vec<f64>> {
+        let u = self.base.exact(t)?[0];
+        Some(vec![u, u * u + 1.0])
+    }
+    fn jac_dense(&self, t: f64, y: &[f64]) -> Option<Vec<Vec<f64>>> {
+        let jb = self.base.jac_dense(t, &y[..1])?[0][0];
+        Some(vec![vec![jb - self.coupling * 2.0 * y[0], self.coupling], vec![-2.0 * y[0], 1.0]])
+    }
+    fn mass_dense(&self) -> Option<Vec<Vec<f64>>> {
+        Some(vec![vec![1.0, 0.0], vec![0.0, 0.0]])
+    }
+    fn describe(&self) -> Value {
+        json!({"family": "semi_explicit_index1_dae", "base": self.base.describe(), "coupling": self.coupling})
+    }
+}
+
+/// Robertson in DAE form: third equation replaced by the conservation law
+struct RobertsonDae;
+impl Problem for RobertsonDae {
+    fn dim(&self) -> usize {
+        3
+    }
+    fn f(&self, _t: f64, y: &[f64], dy: &mut [f64]) {
+        dy[0] = -0.04 * y[0] + 1.0e4 * y[1] * y[2];
+        dy[1] = 0.04 * y[0] - 1.0e4 * y[1] * y[2] - 3.0e7 * y[1] * y[1];
+        dy[2] = y[0] + y[1] + y[2] - 1.0;
+    }
+    fn jac_dense(&self, _t: f64, y: &[f64]) -> Option<Vec<Vec<f64>>> {
+        Some(vec![vec![-0.04, 1.0e4 * y[2], 1.0e4 * y[1]], vec![0.04, -1.0e4 * y[2] - 6.0e7 * y[1], -1.0e4 * y[1]], vec![1.0, 1.0, 1.0]])
+    }
+    fn mass_dense(&self) -> Option<Vec<Vec<f64>>> {
+        Some(vec![vec![1.0, 0.0, 0.0], vec![0.0, 1.0, 0.0], vec![0.0, 0.0, 0.0]])
+    }
+    fn describe(&self) -> Value {
+        json!({"family": "robertson_dae"})
+    }
+}
+
+fn random_mass(rng: &mut Rng, n: usize, banded: Option<(usize, usize)>) -> Vec<Vec<f64>> {
+    // well conditioned: diagonally dominant
+    let mut m = vec![vec![0.0; n]; n];
+    for i in 0..n {
+        let mut s = 0.0;
+        for j in 0..n {
+            let k = i as isize - j as isize;
+            let inb = match banded {
+                Some((ml, mu)) => k <= ml as isize && -k <= mu as isize,
+                None => true,
+            };
+            if i != j && inb && rng.chance(0.8) {
+                m[i][j] = rng.range(-0.6, 0.6);
+                s += m[i][j].abs();
+            }
+        }
+        m[i][i] = s + rng.range(0.8, 2.0);
+    }
+    m
+}
+
+fn same(a: &Solution, b: &Solution) -> bool {
+    a.status == b.status && bits_eq(&a.t, &b.t) && bits_eq2(&a.y, &b.y) && a.nfev == b.nfev && a.naccpt == b.naccpt && a.nrejct == b.nrejct
+}
+
 pub fn run(ctx: &Ctx) -> (Report, Meta) {
-    (Report::new(&ctx.prop), Meta::new("not built yet"))
+    let k_acc = 300.0;
+    let meta = Meta::new(
+        "(a) Radau on M y' = M g(t,y) with random well-conditioned dense and banded M (dim 1..8, mass_storage Full/Banded) against the closed-form solution of y' = g; (b) index-1 DAEs with singular M: semi-explicit systems with known solution (algebraic residual and state error at every sample) and the Robertson DAE form vs the committed reference; (c) problems without a mass override run with mass_storage Identity / Full / Banded(ml,mu) through Options and through RADAU::builder() with its defaults: bitwise equal to the Identity run; (d) storage independence: Identity vs Full vs Banded holding the same mass entries, Full vs Banded(ml,mu) holding the same Jacobian entries for all band patterns n<=6 and random ones up to 8 (Radau and BDF, incl. feed-forward cascades that force row exchanges): bitwise equal t, y, counters; (e) analytic vs finite-difference Jacobian: both within the accuracy bound of the exact solution; non-trivial = pair/run with a non-identity mass or a banded storage (distinct by scenario hash)",
+    )
+    .assume("accuracy constant K = 300 x A x naccpt x (atol + rtol|y|) as in C01/C14 (calibrated)")
+    .thresholds(json!({"accuracy_factor_K": k_acc, "dae_residual_factor_in_internal_tolerance_units": 300}))
+    .floor("mass_runs_checked", 150)
+    .floor("dae_runs_checked", 60)
+    .floor("default_mass_pairs", 100)
+    .floor("mass_storage_pairs", 100)
+    .floor("jac_storage_pairs", 300)
+    .floor("jac_source_pairs", 100);
+    let n = ctx.size(1_200, 40_000);
+    let rep = par_for(n, "C15", |i, rep| {
+        let case_id = format!("case/{}", i);
+        if !ctx.want(&case_id) {
+            return;
+        }
+        let mut rng = Rng::derive(ctx.seed, 15, i as u64);
+        let clause = i % 6;
+        match clause {
+            // ------------------------------------------------------------ (a) nonsingular mass
+            0 => {
+                let dirn = rng.sign();
+                let x0 = rng.range(-1.0, 1.0);
+                let xend = x0 + dirn * rng.range(0.5, 5.0);
+                let (c, amp) = random_composite(&mut rng, x0, xend, 8, 10.0);
+                let nn = c.dim();
+                let banded = if rng.bool() && nn >= 2 { Some((rng.below(nn), rng.below(nn))) } else { None };
+                let mm = random_mass(&mut rng, nn, banded);
+                let prob = WithMass { inner: c.clone(), m: mm };
+                let mut scn = Scn::new(Method::RADAU, x0, xend, c.y0());
+                let rt = rng.logu(1e-9, 1e-3);
+                scn.rtol = Tol::S(rt);
+                scn.atol = Tol::S(rt * rng.logu(1e-3, 1.0));
+                scn.user_jac = rng.bool();
+                scn.mass_storage = match banded {
+                    Some((ml, mu)) if rng.bool() => MatrixStorage::Banded { ml, mu },
+                    _ => MatrixStorage::Full,
+                };
+                let res = run_solve(&prob, &scn, false, false);
+                rep.eval();
+                let case = scn.describe(&prob);
+                let cls = format!("{}_mass", if matches!(scn.mass_storage, MatrixStorage::Full) { "full" } else { "banded" });
+                match &res.out {
+                    Outcome::Ok(sol) if sol.status == Status::Success => {
+                        rep.count("mass_runs_checked", 1);
+                        rep.nontrivial(scn_hash(&scn, &prob));
+                        let mut worst: f64 = 0.0;
+                        for (k, &t) in sol.t.iter().enumerate() {
+                            let ex = c.exact(t).unwrap();
+                            for j in 0..nn {
+                                let sc = scn.atol.at(j) + scn.rtol.at(j) * ex[j].abs();
+                                worst = worst.max((sol.y[k][j] - ex[j]).abs() / (sc * amp * sol.naccpt.max(1) as f64));
+                            }
+                        }
+                        rep.worst("mass_form_err_over_naccpt_tol", worst);
+                        if !(worst <= k_acc) {
+                            rep.violate(&format!("C15/mass_form_agrees_with_explicit_form/RADAU/{}", cls), format!("M y' = M g solved with error {:.1} x A x naccpt x tolerance scale against the solution of y' = g", worst), &case_id, case);
+                        }
+                    }
+                    Outcome::Panic(msg) => rep.violate(&format!("C15/no_panic/RADAU/{}", cls), msg.clone(), &case_id, case),
+                    other => rep.violate(&format!("C15/mass_form_solved/RADAU/{}", cls), format!("{} on a well-conditioned mass-matrix problem", other.tag()), &case_id, case),
+                }
+            }
+            // ------------------------------------------------------------ (b) index-1 DAEs
+            1 => {
+                let robertson = (i / 6) % 4 == 3;
+                if robertson {
+                    let tend = *rng.pick(&[40.0, 1e4]);
+                    let mut scn = Scn::new(Method::RADAU, 0.0, tend, vec![1.0, 0.0, 0.0]);
+                    let tol = *rng.pick(&[1e-4, 1e-6, 1e-8]);
+                    scn.rtol = Tol::S(tol);
+                    scn.atol = Tol::V(vec![tol * 1e-2, tol * 1e-6, tol * 1e-2]);
+                    scn.user_jac = rng.bool();
+                    scn.mass_storage = if rng.bool() { MatrixStorage::Full } else { MatrixStorage::Banded { ml: 0, mu: 0 } };
+                    let res = run_solve(&RobertsonDae, &scn, false, false);
+                    rep.eval();
+                    let case = scn.describe(&RobertsonDae);
+                    match &res.out {
+                        Outcome::Ok(sol) if sol.status == Status::Success => {
+                            rep.count("dae_runs_checked", 1);
+                            rep.nontrivial(scn_hash(&scn, &RobertsonDae));
+                            let yref: [f64; 3] = if tend == 40.0 { [0.7158270687193946, 9.185534764557573e-06, 0.2841637457458408] } else { [0.10730042869, 4.8001669e-07, 0.89269909] };
+                            let yl = sol.y.last().unwrap();
+                            let mut res_max: f64 = 0.0;
+                            for y in &sol.y {
+                                res_max = res_max.max((y[0] + y[1] + y[2] - 1.0).abs());
+                            }
+                            rep.worst("robertson_dae_constraint_residual_over_tol", res_max / tol);
+                            if res_max > 100.0 * tol {
+                                rep.violate("C15/dae_constraint/RADAU/robertson_dae", format!("algebraic constraint y1+y2+y3-1 violated by {:e} at tolerance {:e}", res_max, tol), &case_id, case.clone());
+                            }
+                            let mut worst: f64 = 0.0;
+                            for j in 0..3 {
+                                let prec = if tend == 40.0 { 0.0 } else { 1e-7 * yref[j].abs() };
+                                worst = worst.max(((yl[j] - yref[j]).abs() - prec).max(0.0) / ((scn.atol.at(j) + tol * yref[j].abs()) * sol.naccpt.max(1) as f64));
+                            }
+                            rep.worst("robertson_dae_err_over_naccpt_tol", worst);
+                            if worst > k_acc {
+                                rep.violate("C15/dae_accuracy/RADAU/robertson_dae", format!("end state error {:.1} x naccpt x tolerance scale", worst), &case_id, case);
+                            }
+                        }
+                        Outcome::Panic(msg) => rep.violate("C15/no_panic/RADAU/robertson_dae", msg.clone(), &case_id, case),
+                        other => rep.violate("C15/dae_solved/RADAU/robertson_dae", format!("{} on the Robertson DAE to t = {:e}", other.tag(), tend), &case_id, case),
+                    }
+                } else {
+                    let dirn = 1.0;
+                    let x0 = rng.range(-0.5, 0.5);
+                    let xend = x0 + dirn * rng.range(0.5, 4.0);
+                    let (mut base, _) = random_composite(&mut rng, x0, xend, 1, 8.0);
+                    base.mix = None;
+                    let prob = SemiExplicit { base: base.clone(), coupling: rng.range(-1.0, 1.0) };
+                    let y0 = prob.exact(x0).unwrap();
+                    let mut scn = Scn::new(Method::RADAU, x0, xend, y0);
+                    let rt = rng.logu(1e-9, 1e-3);
+                    scn.rtol = Tol::S(rt);
+                    scn.atol = Tol::S(rt * rng.logu(1e-2, 1.0));
+                    scn.user_jac = rng.bool();
+                    scn.mass_storage = match rng.below(3) {
+                        0 => MatrixStorage::Full,
+                        1 => MatrixStorage::Banded { ml: 0, mu: 0 },
+                        _ => MatrixStorage::Banded { ml: 1, mu: 1 },
+                    };
+                    let res = run_solve(&prob, &scn, false, false);
+                    rep.eval();
+                    let case = scn.describe(&prob);
+                    let cls = if scn.user_jac { "semi_explicit_user_jac" } else { "semi_explicit_fd_jac" };
+                    match &res.out {
+                        Outcome::Ok(sol) if sol.status == Status::Success => {
+                            rep.count("dae_runs_checked", 1);
+                            rep.nontrivial(scn_hash(&scn, &prob));
+                            let mut worst: f64 = 0.0;
+                            let mut resid: f64 = 0.0;
+                            for (k, &t) in sol.t.iter().enumerate() {
+                                let ex = prob.exact(t).unwrap();
+                                let y = &sol.y[k];
+                                let tolj = scn.atol.at(1) + scn.rtol.at(1) * ex[1].abs();
+                                resid = resid.max((y[1] - (y[0] * y[0] + 1.0)).abs() / tolj);
+                                for j in 0..2 {
+                                    let sc = scn.atol.at(j) + scn.rtol.at(j) * ex[j].abs();
+                                    worst = worst.max((y[j] - ex[j]).abs() / (sc * sol.naccpt.max(1) as f64));
+                                }
+                            }
+                            rep.worst(&format!("dae_constraint_residual_over_tol_{}", cls), resid);
+                            rep.worst("dae_err_over_naccpt_tol", worst);
+                            // Radau works with the rescaled tolerance rtol' = 0.1 rtol^(2/3); an algebraic variable carries the
+                            // local error of that scale directly, so the residual is judged in those units
+                            let rescale = (0.1 * rt.powf(2.0 / 3.0) / rt).max(1.0);
+                            rep.worst(&format!("dae_constraint_residual_in_internal_tolerance_units_{}", cls), resid / rescale);
+                            if resid > 300.0 * rescale {
+                                rep.violate(&format!("C15/dae_constraint/RADAU/{}", cls), format!("algebraic constraint violated by {:.1} tolerance units ({:.1} in Radau's internal tolerance scale)", resid, resid / rescale), &case_id, case.clone());
+                            }
+                            if worst > k_acc {
+                                rep.violate(&format!("C15/dae_accuracy/RADAU/{}", cls), format!("state error {:.1} x naccpt x tolerance scale", worst), &case_id, case);
+                            }
+                        }
+                        Outcome::Panic(msg) => rep.violate(&format!("C15/no_panic/RADAU/{}", cls), msg.clone(), &case_id, case),
+                        other => rep.violate(&format!("C15/dae_solved/RADAU/{}", cls), format!("{} on a semi-explicit index-1 DAE", other.tag()), &case_id, case),
+                    }
+                }
+            }
+            // ------------------------------------------------------------ (c) default mass for every storage
+            2 => {
+                let g = GenOpts { bidirectional_problems: true, max_span: 8.0, ..Default::default() };
+                let (prob, mut scn) = gen_case(&mut rng, &g);
+                scn.method = Method::RADAU;
+                scn.user_jac = rng.bool();
+                scn.supply_mass = false;
+                let nn = scn.y0.len();
+                let base = {
+                    let mut s = scn.clone();
+                    s.mass_storage = MatrixStorage::Identity;
+                    run_solve(&prob, &s, false, false)
+                };
+                let Outcome::Ok(a) = &base.out else {
+                    rep.inconclusive("identity_run_not_ok");
+                    return;
+                };
+                for st in [MatrixStorage::Full, MatrixStorage::Banded { ml: 0, mu: 0 }, MatrixStorage::Banded { ml: rng.below(nn), mu: rng.below(nn) }] {
+                    let mut s = scn.clone();
+                    s.mass_storage = st.clone();
+                    let r = run_solve(&prob, &s, false, false);
+                    rep.eval();
+                    rep.count("default_mass_pairs", 1);
+                    rep.nontrivial(scn_hash(&s, &prob));
+                    let case = s.describe(&prob);
+                    let cls = match st {
+                        MatrixStorage::Full => "options_full",
+                        _ => "options_banded",
+                    };
+                    match &r.out {
+                        Outcome::Ok(b) => {
+                            if !same(a, b) {
+                                rep.violate(&format!("C15/default_mass_is_identity/RADAU/{}", cls), format!("no mass matrix supplied: mass_storage {:?} gives status {:?} and last state {:?}, Identity storage gives {:?} and {:?}", st, b.status, b.y.last(), a.status, a.y.last()), &case_id, case);
+                            }
+                        }
+                        Outcome::Panic(msg) => rep.violate(&format!("C15/no_panic/RADAU/{}", cls), msg.clone(), &case_id, case),
+                        other => rep.violate(&format!("C15/default_mass_is_identity/RADAU/{}", cls), format!("{} with mass_storage {:?}", other.tag(), st), &case_id, case),
+                    }
+                }
+                // low-level builder with its documented defaults (mass_storage defaults to Full)
+                let mut probe = Probe::new(&prob, scn.x0);
+                probe.user_jac = scn.user_jac;
+                probe.supply_mass = false;
+                let mut so = RecSolOut::new(Some(&probe));
+                let solver = RADAU::builder().build();
+                let r = std::panic::catch_unwind(std::panic::AssertUnwindSafe(|| solver.solve(&probe, scn.x0, &scn.y0, scn.xend, scn.rtol.to_tolerance(), scn.atol.to_tolerance(), Some(&mut so))));
+                rep.eval();
+                rep.count("default_mass_pairs", 1);
+                let case = scn.describe(&prob);
+                match r {
+                    Ok(Ok(_)) => {
+                        let ok = so.cbs.len() == a.t.len() && so.cbs.iter().zip(a.t.iter().zip(&a.y)).all(|(c, (t, y))| c.x.to_bits() == t.to_bits() && bits_eq(&c.y, y));
+                        if !ok {
+                            rep.violate("C15/default_mass_is_identity/RADAU/builder_defaults", format!("RADAU::builder().build() without a mass override: {} callbacks ending in {:?}; solve_ivp with Identity mass: {} samples ending in {:?}", so.cbs.len(), so.cbs.last().map(|c| c.y.clone()), a.t.len(), a.y.last()), &case_id, case);
+                        }
+                    }
+                    Ok(Err(e)) => rep.violate("C15/default_mass_is_identity/RADAU/builder_defaults", format!("Err({:?})", e), &case_id, case),
+                    Err(p) => rep.violate("C15/no_panic/RADAU/builder_defaults", crate::probe::panic_message(&p), &case_id, case),
+                }
+            }
+            // ------------------------------------------------------------ (d1) mass storage independence
+            3 => {
+                let dirn = 1.0;
+                let x0 = rng.range(-1.0, 1.0);
+                let xend = x0 + dirn * rng.range(0.5, 4.0);
+                let (c, _) = random_composite(&mut rng, x0, xend, 6, 10.0);
+                let nn = c.dim();
+                let identity = rng.chance(0.3);
+                let (ml, mu) = (rng.below(nn), rng.below(nn));
+                let mm = if identity { (0..nn).map(|r| (0..nn).map(|q| if r == q { 1.0 } else { 0.0 }).collect()).collect() } else { random_mass(&mut rng, nn, Some((ml, mu))) };
+                let prob = WithMass { inner: c.clone(), m: mm };
+                let mut scn = Scn::new(Method::RADAU, x0, xend, c.y0());
+                let rt = rng.logu(1e-8, 1e-3);
+                scn.rtol = Tol::S(rt);
+                scn.atol = Tol::S(rt * 1e-2);
+                scn.user_jac = rng.bool();
+                let mut variants: Vec<MatrixStorage> = vec![MatrixStorage::Full, MatrixStorage::Banded { ml, mu }, MatrixStorage::Banded { ml: nn - 1, mu: nn - 1 }];
+                if identity {
+                    variants.push(MatrixStorage::Identity);
+                }
+                let mut firsts: Option<Solution> = None;
+                for st in variants {
+                    let mut s = scn.clone();
+                    s.mass_storage = st.clone();
+                    let r = run_solve(&prob, &s, false, false);
+                    rep.eval();
+                    let case = s.describe(&prob);
+                    match r.out {
+                        Outcome::Ok(b) => match &firsts {
+                            None => firsts = Some(b),
+                            Some(a) => {
+                                rep.count("mass_storage_pairs", 1);
+                                rep.nontrivial(scn_hash(&s, &prob));
+                                if !same(a, &b) {
+                                    rep.violate(&format!("C15/mass_storage_independent/RADAU/{}", if identity { "identity_entries" } else { "banded_entries" }), format!("mass storage {:?} and Full hold the same entries but give different trajectories ({} vs {} accepted steps, status {:?} vs {:?})", st, b.naccpt, a.naccpt, b.status, a.status), &case_id, case);
+                                }
+                            }
+                        },
+                        Outcome::Panic(msg) => rep.violate("C15/no_panic/RADAU/mass_storage", msg, &case_id, case),
+                        other => rep.violate("C15/mass_storage_independent/RADAU/run_failed", format!("{} with mass storage {:?}", other.tag(), st), &case_id, case),
+                    }
+                }
+            }
+            // ------------------------------------------------------------ (d2) Jacobian storage independence
+            4 => {
+                let method = if (i / 6) % 2 == 0 { Method::RADAU } else { Method::BDF };
+                let m = mname(method);
+                let sub = i / 12;
+                // all band patterns for n <= 6 in turn, random beyond
+                let (nn, ml, mu) = if sub < 91 {
+                    let mut k = sub;
+                    let mut found = (2, 0, 0);
+                    'o: for n_ in 1..=6usize {
+                        for a in 0..n_ {
+                            for b in 0..n_ {
+                                if k == 0 {
+                                    found = (n_, a, b);
+                                    break 'o;
+                                }
+                                k -= 1;
+                            }
+                        }
+                    }
+                    found
+                } else {
+                    let n_ = 2 + rng.below(7);
+                    (n_, rng.below(n_), rng.below(n_))
+                };
+                let strong = rng.chance(0.35);
+                let prob = BandedSys::random(&mut rng, nn, ml, mu, strong);
+                let x0 = 0.0;
+                let xend = rng.range(0.5, 4.0);
+                let y0: Vec<f64> = (0..nn).map(|_| rng.range(-1.0, 1.0)).collect();
+                let mut scn = Scn::new(method, x0, xend, y0);
+                let rt = rng.logu(1e-8, 1e-3);
+                scn.rtol = Tol::S(rt);
+                scn.atol = Tol::S(rt * 1e-2);
+                scn.user_jac = true;
+                let full = run_solve(&prob, &scn, false, false);
+                let Outcome::Ok(a) = &full.out else {
+                    if let Outcome::Panic(msg) = &full.out {
+                        rep.violate(&format!("C15/no_panic/{}/jac_full", m), msg.clone(), &case_id, scn.describe(&prob));
+                    } else {
+                        rep.inconclusive("full_jacobian_run_not_ok");
+                    }
+                    return;
+                };
+                for (bl, bu) in [(ml, mu), (nn - 1, nn - 1), ((ml + 1).min(nn - 1), mu)] {
+                    let mut s = scn.clone();
+                    s.jac_storage = MatrixStorage::Banded { ml: bl, mu: bu };
+                    let r = run_solve(&prob, &s, false, false);
+                    rep.eval();
+                    rep.count("jac_storage_pairs", 1);
+                    rep.nontrivial(scn_hash(&s, &prob));
+                    let case = s.describe(&prob);
+                    let cls = if strong { "cascade_with_row_exchanges" } else { "diagonally_dominant" };
+                    match &r.out {
+                        Outcome::Ok(b) => {
+                            if !same(a, b) {
+                                rep.violate(&format!("C15/jacobian_storage_independent/{}/{}", m, cls), format!("Banded({},{}) and Full Jacobian storage hold the same entries (n = {}, band ({},{})) but give different trajectories: {} vs {} accepted steps, status {:?} vs {:?}", bl, bu, nn, ml, mu, b.naccpt, a.naccpt, b.status, a.status), &case_id, case);
+                            }
+                        }
+                        Outcome::Panic(msg) => rep.violate(&format!("C15/no_panic/{}/jac_banded", m), msg.clone(), &case_id, case),
+                        other => rep.violate(&format!("C15/jacobian_storage_independent/{}/run_failed", m), format!("{} with Banded({},{}) Jacobian storage", other.tag(), bl, bu), &case_id, case),
+                    }
+                }
+            }
+            // ------------------------------------------------------------ (e) analytic vs finite-difference Jacobian
+            _ => {
+                let method = if (i / 6) % 2 == 0 { Method::RADAU } else { Method::BDF };
+                let m = mname(method);
+                let dirn = rng.sign();
+                let x0 = rng.range(-1.0, 1.0);
+                let xend = x0 + dirn * rng.range(0.5, 6.0);
+                let (c, amp) = random_composite(&mut rng, x0, xend, 8, 10.0);
+                let nn = c.dim();
+                let mut scn = Scn::new(method, x0, xend, c.y0());
+                let rt = rng.logu(if method == Method::BDF { 1e-8 } else { 1e-10 }, 1e-3);
+                scn.rtol = Tol::S(rt);
+                scn.atol = Tol::S(rt * rng.logu(1e-3, 1.0));
+                let mut ends: Vec<Vec<f64>> = Vec::new();
+                for uj in [true, false] {
+                    let mut s = scn.clone();
+                    s.user_jac = uj;
+                    let r = run_solve(&c, &s, false, false);
+                    rep.eval();
+                    let case = s.describe(&c);
+                    match &r.out {
+                        Outcome::Ok(sol) if sol.status == Status::Success => {
+                            let mut worst: f64 = 0.0;
+                            for (k, &t) in sol.t.iter().enumerate() {
+                                let ex = c.exact(t).unwrap();
+                                for j in 0..nn {
+                                    let sc = s.atol.at(j) + s.rtol.at(j) * ex[j].abs();
+                                    worst = worst.max((sol.y[k][j] - ex[j]).abs() / (sc * amp * sol.naccpt.max(1) as f64));
+                                }
+                            }
+                            rep.worst(&format!("jac_source_err_over_naccpt_tol_{}_{}", m, if uj { "user" } else { "fd" }), worst);
+                            if worst > k_acc {
+                                rep.violate(&format!("C15/jacobian_source_within_tolerance/{}/{}", m, if uj { "user_jac" } else { "fd_jac" }), format!("error {:.1} x A x naccpt x tolerance scale", worst), &case_id, case);
+                            }
+                            ends.push(sol.y.last().unwrap().clone());
+                        }
+                        Outcome::Panic(msg) => rep.violate(&format!("C15/no_panic/{}/jac_source", m), msg.clone(), &case_id, case),
+                        other => rep.violate(&format!("C15/jacobian_source_within_tolerance/{}/{}", m, if uj { "user_jac" } else { "fd_jac" }), format!("{} on a smooth problem", other.tag()), &case_id, case),
+                    }
+                }
+                if ends.len() == 2 {
+                    rep.count("jac_source_pairs", 1);
+                    rep.nontrivial(scn_hash(&scn, &c));
+                }
+            }
+        }
+        if i % 397 == 0 {
+            let cname = ["nonsingular_mass", "index1_dae", "default_mass", "mass_storage", "jacobian_storage", "jacobian_source"][clause];
+            rep.sample(json!({"clause": cname, "case": case_id}));
+        }
+    });
+    (rep, meta)
+}
+
+#[allow(dead_code)]
+pub fn debug_dae() {
+    let base = Composite::new(vec![Base::PR { lam: -13.107292695416211, om: 1.5706887784742805, u0: -0.2986777087993251 }], Warp::Id, None, 0.3);
+    let prob = SemiExplicit { base, coupling: -0.10651379005738959 };
+    let x0 = 0.3;
+    let y0 = prob.exact(x0).unwrap();
+    for (rt, at) in [(8.338885870278194e-06, 3.0712846627080465e-06), (1e-8, 1e-8)] {
+        let mut scn = Scn::new(Method::RADAU, x0, x0 + 2.0, y0.clone());
+        scn.rtol = Tol::S(rt);
+        scn.atol = Tol::S(at);
+        scn.user_jac = true;
+        scn.mass_storage = MatrixStorage::Full;
+        let r = run_solve(&prob, &scn, false, false);
+        let sol = r.out.sol().unwrap();
+        println!("rtol {:e}: status {:?} naccpt {} nrejct {} nfev {}", rt, sol.status, sol.naccpt, sol.nrejct, sol.nfev);
+        for (k, &t) in sol.t.iter().enumerate() {
+            let y = &sol.y[k];
+            let ex = prob.exact(t).unwrap();
+            println!("  t={:.5} resid/tol={:9.3e} err1/tol={:9.3e} err2/tol={:9.3e}", t, (y[1] - (y[0] * y[0] + 1.0)).abs() / (at + rt * ex[1].abs()), (y[0] - ex[0]).abs() / (at + rt * ex[0].abs()), (y[1] - ex[1]).abs() / (at + rt * ex[1].abs()));
+        }
+    }
 }
